@@ -564,6 +564,31 @@ pub fn generate(
                     M::SyncDir("/d"),
                     M::Fsync("/a"),
                 ];
+                // a durable *directory* name is removed, the removal made durable, and the name comes
+                // back as a file that is fsynced but never entered durably (and the other way round in
+                // thorough): the entry bookkeeping of a flushed remove_dir is what decides the outcome
+                let kind = if thorough {
+                    vec![
+                        M::Mkdir("/d"),
+                        M::SyncDir("/"),
+                        M::Rmdir("/d"),
+                        M::WriteFile("/d", b"AB"),
+                        M::Fsync("/d"),
+                        M::Unlink("/d"),
+                        M::SyncDir("/d"),
+                    ]
+                } else {
+                    vec![M::Mkdir("/d"), M::SyncDir("/"), M::Rmdir("/d"), M::WriteFile("/d", b"AB"), M::Fsync("/d")]
+                };
+                enumerate(&kind, 6, &mut |idx| {
+                    let mut ops = vec![];
+                    for i in idx.iter() {
+                        expand(&kind[*i], "s0", &mut ops);
+                    }
+                    ops.push("s0 crash".into());
+                    ops.push("s0 dump".into());
+                    emit(Case { family: "entk6".into(), seed, cfg: cfg(0, 0, 1, small_pool()), ops });
+                });
                 let lens: Vec<usize> = if thorough { vec![5, 6] } else { vec![5] };
                 for (name, alpha) in [("entf", &flat), ("ents", &sub)] {
                     for len in lens.iter() {
